@@ -42,10 +42,14 @@ static int node_id(work_queue_item_t* n) {
   return 0;
 }
 
+/* VR_BIAS=.data:<k>: abstract item v carries payload word v - k (item k: a NULL payload); the
+ * runtime prints the data cells plus k again, so model and monitor keep seeing v */
+static long payload_bias;
+
 /* client-side accesses to a node the client owns (before push / after get_work): not part
  * of the library, kept out of the access log */
-__attribute__((no_sanitize_thread, noinline)) static void item_set(work_queue_item_t* n, long v) { n->data = (void*)v; }
-__attribute__((no_sanitize_thread, noinline)) static long item_get(work_queue_item_t* n) { return (long)n->data; }
+__attribute__((no_sanitize_thread, noinline)) static void item_set(work_queue_item_t* n, long v) { n->data = (void*)(v - payload_bias); }
+__attribute__((no_sanitize_thread, noinline)) static long item_get(work_queue_item_t* n) { return (long)n->data + payload_bias; }
 
 static int take_node(void) {
   if (nfree > 0) return freelist[--nfree];
@@ -103,6 +107,7 @@ static void do_op(int t, const char* op) {
 int main(int argc, char** argv) {
   if (argc < 2) return 2;
   vh_parse(argv[1]);
+  { const char* b = getenv("VR_BIAS"); const char* c = b ? strrchr(b, ':') : 0; payload_bias = c ? atol(c + 1) : 0; }
   if (argc > 2) wq_base = strtoull(argv[2], 0, 10);
   VH_DIRTY(wq);
   if (!work_queue_init(&wq)) return 2;
